@@ -79,7 +79,8 @@ META = {
         "invariant 'a value token arrives only while a key is pending' is proved from both sides (_tokenize: no CFG path from the "
         "start or from a value yield to a value yield avoids a key yield, is_key decides the token class; _to_tokens: every key "
         "token is stored, other tokens leave the pending key alone, it is reset only after the pair was yielded); the result pair "
-        "is (key.value, value.value or ''); every value options_to_items returns is built in the iteration over _to_tokens "
+        "is (key.value, value.value or '') and the pairs are collected in a sequence to which every iteration over _to_tokens adds "
+        "exactly one element on every path (no mapping/set keyed by the key text, no filter); every value options_to_items returns is built in the iteration over _to_tokens "
         "(no second, unscanned way of producing pairs)."
     ),
     "not_decided": (
@@ -3366,32 +3367,113 @@ def r6_state_machine(corpus: Corpus, rep: Report, tier: str):
     if len(loops) != 1 or not (isinstance(loops[0].target, ast.Tuple) and len(loops[0].target.elts) == 2 and all(isinstance(e, ast.Name) for e in loops[0].target.elts)):
         raise Unsupported("options_to_items: iteration over _to_tokens with a (key, value) target not found")
     kn, vn = (e.id for e in loops[0].target.elts)
-    tuples = [t for t in oti.local_nodes() if isinstance(t, ast.Tuple) and isinstance(t.ctx, ast.Load) and len(t.elts) == 2 and any(isinstance(x, ast.Name) and x.id in (kn, vn) for x in ast.walk(t))]
-    if len(tuples) != 1:
-        raise Unsupported("options_to_items: the (key, value) result tuple was not found")
-    first, second = tuples[0].elts
-    k = f"{oti.fq}|pair = (key.value, value.value or '')"
-    problems = []
-    if unparse(first) != f"{kn}.value":
-        problems.append(f"first component is `{short(first, 40)}`, not {kn}.value")
-    if isinstance(second, ast.IfExp):
-        t = unparse(second.test)
-        some, none = (second.body, second.orelse) if t in (f"{vn} is not None", vn) else (second.orelse, second.body) if t in (f"{vn} is None", f"not {vn}") else (None, None)
-        if some is None:
-            rep.error("C07.R6", f"{m.site(second)} options_to_items: value test `{t}` not understood")
+    loop0 = loops[0]
+    k_seq = f"{oti.fq}|one pair per (key, value) token pair, in a sequence"
+    # (a) the pairs are collected in a sequence: a mapping / set keyed by the key text collapses repeated keys and reorders them
+    keyed = []
+    for n in oti.local_nodes():
+        if isinstance(n, (ast.Assign, ast.AugAssign)):
+            for t in (n.targets if isinstance(n, ast.Assign) else [n.target]):
+                if isinstance(t, ast.Subscript) and any(isinstance(x, ast.Name) and x.id == kn for x in ast.walk(t.slice)):
+                    keyed.append((n, f"`{short(n, 60)}` stores the value under its key"))
+        elif isinstance(n, (ast.DictComp, ast.SetComp)) and any(g_ is loop0 for g_ in n.generators):
+            keyed.append((n, f"`{short(n, 60)}` builds a {'dict' if isinstance(n, ast.DictComp) else 'set'}"))
+        elif isinstance(n, ast.Call) and isinstance(n.func, ast.Attribute) and n.func.attr in ("add", "update", "setdefault") and any(isinstance(x, ast.Name) and x.id in (kn, vn) for a_ in n.args for x in ast.walk(a_)):
+            keyed.append((n, f"`{short(n, 60)}` feeds a set / mapping"))
+        elif isinstance(n, ast.Call) and isinstance(n.func, ast.Name) and n.func.id in ("dict", "set", "frozenset") and any(isinstance(x, (ast.GeneratorExp, ast.ListComp)) and any(g_ is loop0 for g_ in x.generators) for x in n.args):
+            keyed.append((n, f"`{short(n, 60)}` turns the pairs into a {n.func.id}"))
+    if keyed:
+        rep.violation(
+            "C07.R6",
+            k_seq,
+            m.site(keyed[0][0]),
+            f"{keyed[0][1]}: a repeated key collapses into one pair (with the last value at the position of the first occurrence), where YAML's event "
+            "stream - and the documented (key, value) list - keeps every pair in order",
+        )
+    # (b) every iteration adds exactly one pair
+    if isinstance(loop0, ast.For):
+        cfg_o = get_cfg(oti)
+        acc_names = set()
+        for r_ in oti.local_nodes():
+            if isinstance(r_, ast.Return) and r_.value is not None:
+                comp_ = r_.value.elts[0] if isinstance(r_.value, ast.Tuple) and r_.value.elts else r_.value
+                acc_names |= {x.id for x in ast.walk(comp_) if isinstance(x, ast.Name)}
+        touches = lambda e_: any(isinstance(x, ast.Name) and x.id in (kn, vn) for x in ast.walk(e_))
+        sinks = [st for st in cfg_o.nodes if isinstance(st, ast.stmt) and any(st is x for b_ in loop0.body for x in ast.walk(b_)) and any(
+            isinstance(c, ast.Call) and isinstance(c.func, ast.Attribute) and c.func.attr in ("append", "extend", "insert")
+            and ((isinstance(c.func.value, ast.Name) and c.func.value.id in acc_names) or any(touches(a_) for a_ in c.args))
+            for h_ in _header(st) for c in [h_] + list(walk_local(h_)) if isinstance(c, ast.Call)
+        )] + [st for st, _ in keyed if isinstance(st, ast.stmt)] + [
+            st for st in cfg_o.nodes
+            if isinstance(st, ast.AugAssign) and isinstance(st.op, ast.Add) and any(st is x for b_ in loop0.body for x in ast.walk(b_))
+            and ((isinstance(st.target, ast.Name) and st.target.id in acc_names) or touches(st.value))
+        ]
+        per_iter = cfg_o.counts(("T", loop0), [loop0], lambda n: 1 if any(n is s_ for s_ in sinks) else 0).get(loop0, set())
+        if not keyed:
+            if per_iter == {1}:
+                rep.ok("C07.R6", k_seq, m.site(loop0), "every path through the loop body appends exactly one pair to a list")
+            elif not sinks:
+                raise Unsupported("options_to_items: no statement in the loop over _to_tokens adds a pair to the result")
+            else:
+                rep.violation("C07.R6", k_seq, m.site(sinks[0]), f"an iteration over _to_tokens can add {sorted(per_iter)} pair(s) to the result (2 = two or more): pairs are dropped or duplicated relative to YAML's event stream")
+    elif not keyed:
+        if loop0.ifs:
+            rep.violation("C07.R6", k_seq, m.site(loop0.ifs[0]), f"the comprehension over _to_tokens filters pairs (`if {short(loop0.ifs[0], 40)}`): dropped pairs are missing relative to YAML's event stream")
         else:
-            if unparse(some) != f"{vn}.value":
-                problems.append(f"with a value token the second component is `{short(some, 40)}`, not {vn}.value" + (" (None.value raises AttributeError out of options_to_items)" if unparse(none) == f"{vn}.value" else ""))
-            if not (isinstance(none, ast.Constant) and none.value == ""):
-                problems.append(f"without a value token the second component is `{short(none, 40)}`, not '' (YAML's empty scalar read as a string)")
-    elif unparse(second) == f"{vn}.value":
-        problems.append(f"{vn} may be None (a key without value): {vn}.value raises AttributeError out of options_to_items")
-    else:
-        rep.error("C07.R6", f"{m.site(second)} options_to_items: second component `{short(second, 40)}` not understood")
-    if problems:
-        rep.violation("C07.R6", k, m.site(tuples[0]), "; ".join(problems))
-    else:
-        rep.ok("C07.R6", k, m.site(tuples[0]))
+            rep.ok("C07.R6", k_seq, m.site(loop0.iter), "list comprehension without filter")
+    # (c) what a pair is made of: (key.value, value.value if value is not None else "")
+    pairs = []  # (first expr, second expr, site node)
+    for t in oti.local_nodes():
+        if isinstance(t, ast.Tuple) and isinstance(t.ctx, ast.Load) and len(t.elts) == 2 and any(isinstance(x, ast.Name) and x.id in (kn, vn) for x in ast.walk(t)) and not (isinstance(parent(t), (ast.For, ast.comprehension)) and parent(t).target is t):
+            pairs.append((t.elts[0], t.elts[1], t))
+    for n, _ in keyed:
+        if isinstance(n, ast.Assign) and isinstance(n.targets[0], ast.Subscript):
+            pairs.append((n.targets[0].slice, n.value, n))
+        elif isinstance(n, ast.DictComp):
+            pairs.append((n.key, n.value, n))
+    if not pairs:
+        raise Unsupported("options_to_items: the (key, value) pair construction was not found")
+    cfg_o = get_cfg(oti) if isinstance(loop0, ast.For) else None
+    seen_p: Counter = Counter()
+    for first, second, node in pairs:
+        k = f"{oti.fq}|pair = (key.value, value.value or '')"
+        seen_p[k] += 1
+        k += f" #{seen_p[k]}" if seen_p[k] > 1 else ""
+        problems = []
+        # is the value token known (not) to be None where this pair is built?
+        known = None
+        if cfg_o is not None:
+            for t_, pol in cfg_o.guards(cfg_o.stmt_of(node)):
+                txt = unparse(t_)
+                if txt in (f"{vn} is not None", vn):
+                    known = pol
+                elif txt == f"{vn} is None":
+                    known = not pol
+        if unparse(first) != f"{kn}.value":
+            problems.append(f"first component is `{short(first, 40)}`, not {kn}.value")
+        if isinstance(second, ast.IfExp):
+            t = unparse(second.test)
+            some, none = (second.body, second.orelse) if t in (f"{vn} is not None", vn) else (second.orelse, second.body) if t in (f"{vn} is None", f"not {vn}") else (None, None)
+            if some is None:
+                rep.error("C07.R6", f"{m.site(second)} options_to_items: value test `{t}` not understood")
+            else:
+                if unparse(some) != f"{vn}.value":
+                    problems.append(f"with a value token the second component is `{short(some, 40)}`, not {vn}.value" + (" (None.value raises AttributeError out of options_to_items)" if unparse(none) == f"{vn}.value" else ""))
+                if not (isinstance(none, ast.Constant) and none.value == ""):
+                    problems.append(f"without a value token the second component is `{short(none, 40)}`, not '' (YAML's empty scalar read as a string)")
+        elif unparse(second) == f"{vn}.value":
+            if known is not True:
+                problems.append(f"{vn} may be None (a key without value): {vn}.value raises AttributeError out of options_to_items")
+        elif isinstance(second, ast.Constant) and second.value == "" and known is False:
+            pass
+        elif isinstance(second, ast.Constant) and known is False:
+            problems.append(f"without a value token the second component is `{short(second, 40)}`, not '' (YAML's empty scalar read as a string)")
+        else:
+            rep.error("C07.R6", f"{m.site(second)} options_to_items: second component `{short(second, 40)}` not understood")
+        if problems:
+            rep.violation("C07.R6", k, m.site(node), "; ".join(problems))
+        else:
+            rep.ok("C07.R6", k, m.site(node))
     # every result of options_to_items comes out of the tokenizer: no second, unscanned way of producing pairs
     loop = loops[0]
     loop_stmt = loop if isinstance(loop, ast.For) else next((p_ for p_ in _ancestors_until(loop) if isinstance(p_, (ast.ListComp, ast.GeneratorExp))), None)
@@ -3402,6 +3484,12 @@ def r6_state_machine(corpus: Corpus, rep: Report, tier: str):
             return None
         if isinstance(e, ast.Call) and isinstance(e.func, ast.Name) and e.func.id in ("list", "tuple") and len(e.args) == 1:
             return from_tokenizer(e.args[0], depth)
+        if isinstance(e, ast.Call) and isinstance(e.func, ast.Attribute) and e.func.attr == "items" and not e.args:
+            return from_tokenizer(e.func.value, depth)  # (a mapping accumulator is judged by the sequence clause)
+        if isinstance(e, (ast.Dict, ast.Set)) and not getattr(e, "keys", getattr(e, "elts", [])):
+            return None
+        if isinstance(e, (ast.DictComp, ast.SetComp)):
+            return None if any(g_ is loop for g_ in e.generators) else f"`{short(e, 50)}` is not the iteration over _to_tokens"
         if isinstance(e, (ast.ListComp, ast.GeneratorExp)):
             return None if e is loop_stmt else f"`{short(e, 50)}` is not the iteration over _to_tokens"
         if isinstance(e, ast.Name) and depth < 3:
@@ -3413,8 +3501,9 @@ def r6_state_machine(corpus: Corpus, rep: Report, tier: str):
                 if w:
                     return w
             for c in oti.local_nodes():
-                grows = isinstance(c, ast.Call) and isinstance(c.func, ast.Attribute) and isinstance(c.func.value, ast.Name) and c.func.value.id == e.id and c.func.attr in ("append", "extend", "insert", "__iadd__")
+                grows = isinstance(c, ast.Call) and isinstance(c.func, ast.Attribute) and isinstance(c.func.value, ast.Name) and c.func.value.id == e.id and c.func.attr in ("append", "extend", "insert", "__iadd__", "update", "add", "setdefault")
                 grows = grows or (isinstance(c, ast.AugAssign) and isinstance(c.target, ast.Name) and c.target.id == e.id)
+                grows = grows or (isinstance(c, ast.Assign) and any(isinstance(t_, ast.Subscript) and isinstance(t_.value, ast.Name) and t_.value.id == e.id for t_ in c.targets))
                 if grows and not (isinstance(loop_stmt, ast.For) and any(c is x for x in ast.walk(loop_stmt))):
                     return f"`{short(c, 50)}` adds to the result outside the iteration over _to_tokens"
             return None
@@ -3718,4 +3807,21 @@ def mutants(corpus: Corpus):
             out.append(Mutant(mid, "C07.R1", m.rel, src2, expect="assert key_token is not None"))
     else:
         out.append(("c07-assert-with-key-scanned-as-value", "guard / key call not found"))
+    # --- round 8: how the pairs are collected ---
+    oti_ = m.func("options_to_items")
+    app_ = find_node(oti_, lambda n: isinstance(n, ast.Expr) and isinstance(n.value, ast.Call) and unparse(n.value.func) == "output.append")
+    init_ = find_node(oti_, lambda n: isinstance(n, ast.Assign) and unparse(n) == "output = []")
+    ret_ = find_node(oti_, lambda n: isinstance(n, ast.Return))
+    if app_ is not None and init_ is not None and ret_ is not None and isinstance(app_.value.args[0], ast.Tuple):
+        k_src, v_src = (ast.get_source_segment(m.src, e) for e in app_.value.args[0].elts)
+        src2 = m.src
+        for n_, t_ in sorted(((ret_, "return list(output.items()), state"), (app_, f"output[{k_src}] = {v_src}"), (init_, "output = {}")), key=lambda e: -e[0].lineno):
+            src2 = splice(src2, n_, t_)
+        out.append(Mutant("c07-pairs-collected-in-a-dict", "C07.R6", m.rel, src2, expect="in a sequence"))
+        ind = " " * app_.col_offset
+        seg = ast.get_source_segment(m.src, app_)
+        out.append(Mutant("c07-valueless-keys-dropped", "C07.R6", m.rel, splice(m.src, app_, "if value_token is not None:\n" + ind + "    " + seg.replace("\n", "\n    ")), expect="in a sequence"))
+        out.append(Mutant("c07-pair-appended-twice", "C07.R6", m.rel, splice(m.src, app_, seg + "\n" + ind + "if value_token is None:\n" + ind + "    " + seg.replace("\n", "\n    ")), expect="in a sequence"))
+    else:
+        out.append(("c07-pairs-collected-in-a-dict", "append of the pair not found"))
     return out
